@@ -977,6 +977,9 @@ func workers() int {
 // Main runs the harness for property p ("C25" or "C26").
 func Main(p string) {
 	prop = p
+	if raceMain() {
+		return
+	}
 	if ls := gen.ReplayLines(); ls != nil {
 		Interpret(ls)
 		return
